@@ -48,7 +48,8 @@ def ctor_list(ob, ndims):
         cores.append(T.atom_tensor('c%d' % k, shp))
     ob.describe('shapes', shapes)
     ob.replay_args = {}
-    obj = ex.instantiate(H.tt_class(ex), [cores], {})
+    ex.register_arg(cores, 'cores_list')        # the caller's list: the object must keep its own list (two objects built from one
+    obj = ex.instantiate(H.tt_class(ex), [cores], {})     # list would otherwise be changed together by set_core / reduce_dims)
     ob.wf(obj)
     # the fields describe exactly the given cores
     f = fields(ob, obj)
